@@ -353,6 +353,17 @@ fn generate(rng: &mut Rng, tier: Tier, cases: &mut Vec<Case>) {
     cases.push(list_case("scripted-list", false, &[QOp::Pf, QOp::Pf, QOp::Mtf(0), QOp::Mtf(1), QOp::Gfm, QOp::Clear, QOp::Pf, QOp::Pf, QOp::Mtf(2)]));
     cases.push(list_case("scripted-list", true, &[QOp::Pf, QOp::Mtf(0), QOp::Pf, QOp::Pf, QOp::Pf, QOp::Pf, QOp::Mtf(0), QOp::Pf]));
 
+    // bulk histories (closed-form judge): capacities and element counts far beyond the step-by-step families
+    for (cap, n, clear) in [(100_000usize, 50_000usize, 1), (5_000, 20_000, 0), (1, 5, 1), (1_000_000, 1_000_000, 0), (300_000, 300_000, 1)] {
+        let mut c = Case::new("bulk");
+        c.op(format!("B {cap} {n} {clear}"));
+        cases.push(c);
+    }
+    for (n, clear) in [(1_000_000usize, 0), (300_000, 1), (3, 1)] {
+        let mut c = Case::new("bulk-list");
+        c.op(format!("BL {n} {clear}"));
+        cases.push(c);
+    }
     // exhaustive LRU histories over 3 keys, capacities 1..4
     let mut ex = Vec::new();
     match tier {
@@ -571,8 +582,84 @@ fn execute(c: &Case, obs: &mut Vec<String>) {
             let ops: Vec<QOp> = c.ops[1..].iter().map(|l| parse_q(l).expect("op")).collect();
             exec_list(*d == "1", &ops, obs)
         }
+        ["B", cap, n, clear] => exec_bulk(cap.parse().expect("cap"), n.parse().expect("n"), *clear == "1", obs),
+        ["BL", n, clear] => exec_bulk_list(n.parse().expect("n"), *clear == "1", obs),
         _ => obs.push("D NO-HEADER".into()),
     }
+}
+
+/// (sum, min, max) of the destructor counts of tokens 0..n-1, and whether anything else was dropped
+fn drop_summary(n: usize) -> String {
+    DROPS.with(|d| {
+        let d = d.borrow();
+        let cnt = |i: usize| d.get(i).copied().unwrap_or(0) as u64;
+        let sum: u64 = (0..n).map(cnt).sum();
+        let mn = (0..n).map(cnt).min().unwrap_or(0);
+        let mx = (0..n).map(cnt).max().unwrap_or(0);
+        let extra = d.iter().skip(n).any(|c| *c > 0) || GARBAGE.with(|g| *g.borrow()) > 0;
+        format!("sum={sum} min={mn} max={mx}{}", if extra { " unknown-tokens-dropped" } else { "" })
+    })
+}
+
+/// the keys the bulk cases look at: around both ends and around the eviction boundary n - cap
+fn bulk_samples(cap: usize, n: usize) -> Vec<usize> {
+    let b = n.saturating_sub(cap);
+    let mut v = vec![0, 1, b.saturating_sub(1), b, b + 1, n / 2, n.saturating_sub(2), n.saturating_sub(1), n, n + 1];
+    v.sort_unstable();
+    v.dedup();
+    v
+}
+
+/// `B <cap> <n> <clear>`: n distinct keys 0..n-1 (value = token i) pushed into a fresh cache; sizes far beyond
+/// what the step-by-step families reach (index growth steps, deep lists); judged against the closed form of the
+/// recency-list specification for this history
+fn exec_bulk(cap: usize, n: usize, clear: bool, obs: &mut Vec<String>) {
+    let _log = DropLog::new();
+    let mut lru: LRU<u32, Token> = LRU::new_with_capacity(cap);
+    for i in 0..n {
+        lru.push(&(i as u32), Token(i as u32));
+    }
+    obs.push(format!("D bulk len={} empty={}", lru.len(), lru.is_empty() as u8));
+    let keys = bulk_samples(cap, n);
+    let has: String = keys.iter().map(|k| if lru.contains(&(*k as u32)) { '1' } else { '0' }).collect();
+    let fr = match lru.get_front() {
+        Some((k, v)) => format!("{k}:{}", v.0),
+        None => "none".into(),
+    };
+    obs.push(format!("D bulk has={has} front={fr}"));
+    let gets = join(keys.iter().map(|k| match lru.get(&(*k as u32)) {
+        Some(t) => t.0.to_string(),
+        None => "none".into(),
+    }), ",");
+    obs.push(format!("D bulk get={gets} len={}", lru.len()));
+    obs.push(format!("F bulk evicted {}", drop_summary(n)));
+    if clear {
+        lru.clear();
+        obs.push(format!("D bulk cleared len={} empty={}", lru.len(), lru.is_empty() as u8));
+        obs.push(format!("F bulk cleared {}", drop_summary(n)));
+        // fully reusable
+        lru.push(&7, Token(n as u32));
+        obs.push(format!("D bulk reuse len={} has={}", lru.len(), lru.contains(&7) as u8));
+    }
+    drop(lru);
+    obs.push(format!("D bulk end {}", drop_summary(n + clear as usize)));
+}
+
+/// `BL <n> <clear>`: the cursor list with n elements, emptied by `clear` or by dropping it
+fn exec_bulk_list(n: usize, clear: bool, obs: &mut Vec<String>) {
+    let _log = DropLog::new();
+    let mut list: LinkedList<Token> = LinkedList::new();
+    for i in 0..n {
+        list.push_front(Token(i as u32));
+    }
+    let fr = if list.len() > 0 { list.get_front().0.to_string() } else { "none".into() };
+    obs.push(format!("D bulk len={} front={fr}", list.len()));
+    if clear {
+        list.clear();
+        obs.push(format!("D bulk cleared len={}", list.len()));
+    }
+    drop(list);
+    obs.push(format!("D bulk end {}", drop_summary(n)));
 }
 
 fn main() {
